@@ -1307,12 +1307,12 @@ package larking
 // allocates itself. Every trie node and variable node of the result is fresh,
 // so a writer that mutates the clone can never touch the published snapshot;
 // nothing that existed before the call is written.
-//@ func (*path).clone serves C12 C16
+//@ func (*path).clone serves C12 C16 C01
 //@   modifies fresh M$, fresh F$path., fresh F$variable., fresh E$P_variable
-//@   ensures [fresh-root C12] result != nil && isfresh(result) && isfresh(result.segments) && isfresh(result.methods)
+//@   ensures [fresh-root C12 C01] result != nil && isfresh(result) && isfresh(result.segments) && isfresh(result.methods)
 //@   assume at "pc.variables[i] = &variable{" v != nil
-//@   ensures [fresh-subtrees C12 C16] forall k :: {maphas(result.segments, k)} maphas(result.segments, k) ==> isfresh(mapval(result.segments, k))
-//@   ensures [fresh-variables C12 C16] (len(result.variables) > 0 ==> isfresh(result.variables)) && (forall x :: {at(result.variables, x)} off(result.variables) <= x && x < off(result.variables) + len(result.variables) ==> isfresh(at(result.variables, x)) && isfresh(at(result.variables, x).next))
+//@   ensures [fresh-subtrees C12 C16 C01] forall k :: {maphas(result.segments, k)} maphas(result.segments, k) ==> isfresh(mapval(result.segments, k))
+//@   ensures [fresh-variables C12 C16 C01] (len(result.variables) > 0 ==> isfresh(result.variables)) && (forall x :: {at(result.variables, x)} off(result.variables) <= x && x < off(result.variables) + len(result.variables) ==> isfresh(at(result.variables, x)) && isfresh(at(result.variables, x).next))
 //@   ensures [every-binding-survives-the-copy C12 C11 C02] p != nil ==> result.methodAll == p.methodAll
 //@        && (forall k :: {maphas(result.methods, k)} {maphas(p.methods, k)} maphas(p.methods, k) ==> maphas(result.methods, k) && mapval(result.methods, k) == mapval(p.methods, k))
 //@   ensures [every-literal-child-survives-the-copy C12 C11 C02] p != nil ==> (forall k :: {maphas(result.segments, k)} {maphas(p.segments, k)} maphas(p.segments, k) ==> maphas(result.segments, k))
